@@ -206,6 +206,28 @@ class OpsMixin:
         t = units[0] if len(units) == 1 else z3.Concat(*units)
         return Val(TSeq(elem_ty), t, {"elems": list(elems)})
 
+    def elems_of(self, s: Val):
+        """elems(seq): the set of elements (uninterpreted; construction sites state its defining facts)."""
+        et = s.ty.args[0]
+        f = self.uf("elems_" + self.reg._sname(s.ty), [self.reg.sort(s.ty)], self.reg.sort(TSet(et)))
+        t = f(s.t)
+        key = s.t.get_id()
+        if key not in self._elems_done:
+            self._elems_done.add(key)
+            x = s.t
+            empty = self.empty_set(et).t
+            if z3.is_app(x) and x.decl().kind() == z3.Z3_OP_SEQ_EMPTY:
+                self.axioms.append(t == empty)
+            elif z3.is_app(x) and x.decl().kind() == z3.Z3_OP_SEQ_UNIT:
+                self.axioms.append(t == z3.Store(empty, x.arg(0), z3.BoolVal(True)))
+            elif z3.is_app(x) and x.decl().kind() == z3.Z3_OP_SEQ_CONCAT:
+                parts = [self.elems_of(Val(s.ty, c)) for c in x.children()]
+                u = parts[0]
+                for p_ in parts[1:]:
+                    u = z3.Map(self._f_or, u, p_)
+                self.axioms.append(t == u)
+        return t
+
     def seq_elem_ty(self, v: Val) -> Ty:
         return STR if v.ty.kind == "str" else v.ty.args[0]
 
@@ -218,15 +240,17 @@ class OpsMixin:
         """set of elements of a sequence (uninterpreted, with the membership axiom added lazily)."""
         et = s.ty.args[0]
         f = self.uf("elems_" + self.reg._sname(s.ty), [self.reg.sort(s.ty)], self.reg.sort(TSet(et)))
-        r = Val(TSet(et), f(s.t))
+        r = Val(TSet(et), self.elems_of(s))
         j = z3.Int(fresh_name("j"))
         e = z3.Const(fresh_name("e"), self.reg.sort(et))
         w = self.uf("elemidx_" + self.reg._sname(s.ty), [self.reg.sort(s.ty), self.reg.sort(et)], z3.IntSort())
-        self.axioms.append(z3.ForAll([j], z3.Implies(z3.And(0 <= j, j < z3.Length(s.t)), z3.Select(r.t, s.t[j])),
-                                     patterns=[s.t[j]]))
+        key = ("seq_elems", s.t.get_id())
+        if key in self._elems_done:
+            return r
+        self._elems_done.add(key)
+        self.axioms.append(z3.ForAll([j], z3.Implies(z3.And(0 <= j, j < z3.Length(s.t)), z3.Select(r.t, s.t[j]))))
         self.axioms.append(z3.ForAll([e], z3.Implies(z3.Select(r.t, e),
-                                                     z3.And(0 <= w(s.t, e), w(s.t, e) < z3.Length(s.t), s.t[w(s.t, e)] == e)),
-                                     patterns=[z3.Select(r.t, e)]))
+                                                     z3.And(0 <= w(s.t, e), w(s.t, e) < z3.Length(s.t), s.t[w(s.t, e)] == e))))
         return r
 
     def tuple_get(self, v: Val, i: int) -> Val:
